@@ -127,6 +127,17 @@ theorem RaAll.of_ras_eq {Q : Rollapp → Prop} {s s' : St} (h : RaAll Q s) (e : 
     RaAll Q s' := by
   intro r hr; rw [e] at hr; exact h r hr
 
+-- ---------------------------------------------------------------- the standalone punish proposal
+
+/-- an accepted `PunishSequencerProposal` came from the governance authority and is exactly
+    `PunishSequencer` (no fork, no role change) -/
+theorem punishProposal_ok {s s' : St} {au : Bool} {a : Addr} {rw : Option Addr}
+    (e : punishProposal s au a rw = .ok s') : au = true ∧ punish s a rw = .ok s' := by
+  unfold punishProposal at e
+  cases au with
+  | false => simp at e
+  | true => exact ⟨rfl, by simpa using e⟩
+
 /-- `Q` only looks at the `states` field -/
 def StatesOnly (Q : Rollapp → Prop) : Prop := ∀ r r' : Rollapp, r'.states = r.states → Q r → Q r'
 
